@@ -102,8 +102,10 @@ def build_generator(job):
         rho0 = pni.eval_rho(mol, ao0, 2 * M.core_dm(mol), xctype="LDA")
         n_before = grids.grids_indexer.idx_map.size
         grids.prune_by_density_(rho0, job["prune_thr"])
-        if not grids.grids_indexer.idx_map.size < n_before:
-            raise RuntimeError("density pruning removed no point (threshold %g)" % job["prune_thr"])
+        if not grids.grids_indexer.idx_map.size < n_before and job["mol"] in ("He", "H2", "H2O"):
+            # (the three molecules of the quick tier are known to lose points at these thresholds; the small grids of the
+            # additional thorough molecules may not: those generators then simply run unpruned)
+            raise MachineryError("density pruning removed no point (threshold %g)" % job["prune_thr"])
     nl = M.nldf_settings(job["ver"], job["level"], "one", rich=job["rich"])
     init = PySCFNLDFInitializer(nl, plan_type=job["plan"], interpolator_type=job["interp"], aux_lambd=job.get("lambd", 1.8))
     gen = init.initialize_nldf_generator(mol, grids.grids_indexer, 1)
@@ -118,6 +120,8 @@ def check_generator(job):
     tag = "%s:%s:%s:%s:%s" % (job["ver"], job["level"], job["plan"], job["interp"], job["mol"])
     try:
         mol, grids, nl, gen = build_generator(job)
+    except MachineryError:
+        raise
     except Exception as ex:
         return {"id": job["id"], "viol": [{"site": "build:%s:%s" % (type(ex).__name__, job["interp"]), "detail": {"job": job, "msg": str(ex)[:300]}}], "n": 0, "rec": None}
     gi = gen.grids_indexer
@@ -349,13 +353,16 @@ def main():
     jobs = []
     k = 0
     mols = [("He", (14, 26)), ("H2", (12, 26)), ("H2O", (10, 14))]
+    if not quick:      # more atom / basis layouts, and both plan classes for every combination
+        mols += [("HF", (10, 14)), ("LiH", (12, 14)), ("NH2", (8, 14)), ("H2O_ghost", (8, 14))]
     for ver in ("j", "i", "ij", "k"):
         for interp in ("onsite_direct", "onsite_spline", "train_gen"):
             for mi, (mol, ag) in enumerate(mols):
-                jobs.append({"id": k, "ver": ver, "level": "MGGA" if k % 3 else "GGA", "plan": "gaussian" if k % 2 else "spline", "interp": interp,
-                             "mol": mol, "atom_grid": ag, "lmax": (10, 6, 3, 8)[k % 4], "rich": ver in ("i", "j") and k % 2 == 0, "seed": ck.seed + k,
-                             "prune_thr": (0, 1e-3, 0, 1e-1, 1e-2)[k % 5]})
-                k += 1
+                for plan in (("gaussian" if k % 2 else "spline"),) if quick else ("gaussian", "spline"):
+                    jobs.append({"id": k, "ver": ver, "level": "MGGA" if k % 3 else "GGA", "plan": plan, "interp": interp,
+                                 "mol": mol, "atom_grid": ag, "lmax": (10, 6, 3, 8)[k % 4], "rich": ver in ("i", "j") and k % 2 == 0, "seed": ck.seed + k,
+                                 "prune_thr": (0, 1e-3, 0, 1e-1, 1e-2)[k % 5]})
+                    k += 1
     for mname, basis in (("H2O", "sto-3g"), ("H2O", "cc-pvdz"), ("HF", "6-31g*"), ("H2", "aug-cc-pvdz")):
         jobs.append({"id": k, "sdmx": True, "mol": mname, "basis": basis, "seed": ck.seed + k})
         k += 1
